@@ -167,9 +167,46 @@ std::string mutate_invalid(const std::string &text, Rng &rng) {
         "\ndetector L0", "\ndetector D0 D1", "\ndetector", "\nlogical_observable D0", "\nlogical_observable(1) L0", "\nlogical_observable L0 L1",
         "\nshift_detectors D1", "\nshift_detectors 1 2", "\nshift_detectors(1)", "\nrepeat {\n}", "\nrepeat 2 3 {\n}", "\nrepeat 2\nerror(0.1) D0\n}",
         "\nrepeat 2 {\n    error(0.1) D0", "\n}", "\nerror(0.1) D1152921504606846976", "\nerror(0.1) D0D1", "\nerror[bad\\q](0.1) D0", "\nerror[open(0.1) D0",
-        "\nerror(0.1 D0", "\nerror(0.1) X0", "\nerror(0.1) D", "\nerror(0.1) D-1", "\nerror(0.1) D0 {", "\nrepeat 18446744073709551616 {\n}"};
+        "\nerror(0.1 D0", "\nerror(0.1) X0", "\nerror(0.1) D", "\nerror(0.1) D-1", "\nerror(0.1) D0 {", "\nrepeat 18446744073709551616 {\n}",
+        "\ndetector(1, 2) D99999999999999999999", "\nerror[tag](0.25) D1 L99999999999999999999", "\nshift_detectors(4) 99999999999999999999"};
     t += rng.pick(bad);
     return t;
+}
+
+// a rejected text must leave nothing behind in the model it was appended to: valid text appended afterwards means what it means
+// on a fresh model, except that complete instructions in front of the offending one may have been kept
+void check_after_rejection(const std::string &t, Rng &rng, Stats &st) {
+    DetectorErrorModel acc;
+    bool threw = false;
+    try {
+        acc.append_from_text(t);
+    } catch (const std::exception &) {
+        threw = true;
+    }
+    if (threw) {
+        std::string kept = acc.str();
+        Rng side = rng.sub(779);
+        static const std::vector<std::string> FOLLOW = {"error(0.125) D0", "detector(3) D0", "logical_observable L1", "shift_detectors(1, 2) 3",
+                                                        "error[t](0.25) D1 ^ D2 L0", "repeat 2 {\n    error(0.5) D0\n}", "detector D5"};
+        std::string f = side.pick(FOLLOW);
+        DetectorErrorModel want;
+        bool kept_ok = true;
+        try {
+            want = kept.empty() ? DetectorErrorModel(f) : DetectorErrorModel(kept + "\n" + f);
+        } catch (const std::exception &e) {
+            kept_ok = false;
+            out_x(std::string("after a rejected text the model prints as text that does not parse (`") + esc_line(kept).substr(0, 200) + "`): " + e.what());
+        }
+        if (kept_ok) {
+            try {
+                acc.append_from_text(f);
+                if (!(acc == want)) out_x("after a rejected text, appending `" + esc_line(f) + "` gives `" + esc_line(acc.str()).substr(0, 300) + "`");
+                st.hit("append_after_rejection");
+            } catch (const std::exception &e) {
+                out_x(std::string("valid text rejected after an earlier rejection: ") + e.what());
+            }
+        }
+    }
 }
 
 }  // namespace
@@ -184,6 +221,7 @@ VH_AREA(demtext) {
             std::string text = read_file(a.replay);
             out_case(k, esc_line(text).substr(0, 2000));
             judge_text(text, st, "replay");
+            check_after_rejection(text, rng, st);
             break;
         }
         int mode = (int)(k % 4);
@@ -214,6 +252,7 @@ VH_AREA(demtext) {
             std::string t = mutate_invalid(printed, rng);
             out_case(k, "violation " + esc_line(t).substr(0, 3000));
             judge_text(t, st, "violation");
+            check_after_rejection(t, rng, st);
         } else {
             std::string t;
             if (rng.chance(0.5)) {
